@@ -77,6 +77,34 @@ def evaluate(pred, value):
     raise ValueError(kind)
 
 
+def valid_pred(pred):
+    if not isinstance(pred, dict):
+        return False
+    kind = pred.get("t")
+    if kind == "const":
+        return isinstance(pred.get("v"), bool)
+    if kind == "startswith":
+        return isinstance(pred.get("s"), str)
+    if kind in ("len_even", "isdigit"):
+        return True
+    if kind == "in":
+        return isinstance(pred.get("set"), list)
+    if kind == "not":
+        return valid_pred(pred.get("p"))
+    return False
+
+
+def valid_case(case):
+    for op in case.get("ops", []):
+        if op.get("op") == "register" and not (
+            valid_pred(op.get("pred")) and isinstance(op.get("name"), str)
+        ):
+            return False
+        if op.get("op") in ("make",) and not isinstance(op.get("name"), str):
+            return False
+    return True
+
+
 def make_pred(pred):
     pred = copy.deepcopy(pred)
 
